@@ -140,37 +140,10 @@ func (ps *ProcessSet) run(ctx context.Context) {
 		case ch := <-ps.mch:
 			switch msg := ch.(type) {
 			case throwMessage:
-				sourceRef, ok := ps.messageFlows[msg.Id]
-				if ok {
-					startFlowNode, waitingProcess, found := ps.resolveWaitingProcessAndEvent(string(sourceRef.TargetRefField))
-					if found {
-						// flow nodes
-						subTracer := tracing.NewTracer(ctx)
-						tracing.NewRelay(ctx, subTracer, ps.tracer, func(trace tracing.ITrace) []tracing.ITrace {
-							return []tracing.ITrace{trace}
-						})
-
-						process, err := NewProcess(waitingProcess, ps.definitions, append(ps.sourceOptions, WithTracer(subTracer))...)
-						if err != nil {
-							ps.tracer.Send(ErrorTrace{Error: err})
-							continue
-						}
-
-						traces := process.Tracer().Subscribe()
-						ps.wg.Add(1)
-						go ps.tracerProcess(ctx, process, traces, &ps.wg)
-
-						err = process.StartWith(ctx, startFlowNode)
-						if err != nil {
-							ps.tracer.Send(ErrorTrace{Error: err})
-							continue
-						}
-					}
-					cancel, found := ps.triggerCatch(string(sourceRef.TargetRefField))
-					if found {
-						cancel()
-					}
-				}
+				ps.handleThrow(ctx, msg)
+				// the throw was counted when it was observed (tracerProcess): the set
+				// is not complete while a throw is still on its way or being handled
+				ps.wg.Done()
 			}
 		case <-ps.done:
 			verifAt("pset.run.done")
@@ -178,6 +151,42 @@ func (ps *ProcessSet) run(ctx context.Context) {
 			return
 		case <-ctx.Done():
 			return
+		}
+	}
+}
+
+// handleThrow instantiates the waiting process a thrown message is addressed
+// to, or wakes the catch event it is addressed to.
+func (ps *ProcessSet) handleThrow(ctx context.Context, msg throwMessage) {
+	sourceRef, ok := ps.messageFlows[msg.Id]
+	if ok {
+		startFlowNode, waitingProcess, found := ps.resolveWaitingProcessAndEvent(string(sourceRef.TargetRefField))
+		if found {
+			// flow nodes
+			subTracer := tracing.NewTracer(ctx)
+			tracing.NewRelay(ctx, subTracer, ps.tracer, func(trace tracing.ITrace) []tracing.ITrace {
+				return []tracing.ITrace{trace}
+			})
+
+			process, err := NewProcess(waitingProcess, ps.definitions, append(ps.sourceOptions, WithTracer(subTracer))...)
+			if err != nil {
+				ps.tracer.Send(ErrorTrace{Error: err})
+				return
+			}
+
+			traces := process.Tracer().Subscribe()
+			ps.wg.Add(1)
+			go ps.tracerProcess(ctx, process, traces, &ps.wg)
+
+			err = process.StartWith(ctx, startFlowNode)
+			if err != nil {
+				ps.tracer.Send(ErrorTrace{Error: err})
+				return
+			}
+		}
+		cancel, found := ps.triggerCatch(string(sourceRef.TargetRefField))
+		if found {
+			cancel()
 		}
 	}
 }
@@ -204,7 +213,13 @@ LOOP:
 			case *schema.ThrowEvent:
 				eventId, ok := evt.Id()
 				if ok {
-					ps.mch <- throwMessage{Id: *eventId}
+					// counted before this watcher can finish (see run)
+					wg.Add(1)
+					select {
+					case ps.mch <- throwMessage{Id: *eventId}:
+					case <-ctx.Done():
+						wg.Done()
+					}
 				}
 			}
 		case ActiveListeningTrace:
